@@ -69,6 +69,11 @@ pub enum Act {
     /// one tick in which every packet of client i's link (both directions) is lost
     TickLinkDown(usize),
     Hostile(usize),
+    /// a well-formed packet from client i that its connection refuses without disconnecting: the first slice of an
+    /// unreliable message announcing 10 000 slices (does not fit the channel budget)
+    HostileSlice(usize),
+    /// one tick of 3.1 s (stale-fragment clean-up, sent-packet records written off)
+    LongTick,
 }
 
 #[derive(Clone, Copy, PartialEq, Eq, Debug)]
@@ -308,6 +313,10 @@ impl NWorld {
     }
 
     fn tick(&mut self, fault: Fault) -> Result<(), Violation> {
+        self.tick_dt(fault, DT)
+    }
+
+    fn tick_dt(&mut self, fault: Fault, dt: u64) -> Result<(), Violation> {
         self.tick += 1;
         let n = self.n();
         // clients: update, flush -> server
@@ -315,7 +324,7 @@ impl NWorld {
             let lost = matches!(fault, Fault::Stall(x) if x == i);
             if let Some(c) = self.peers[i].as_mut() {
                 let pk = guard("client update+flush", || {
-                    c.update(Duration::from_millis(DT));
+                    c.update(Duration::from_millis(dt));
                     c.get_packets_to_send()
                 })?;
                 if !lost {
@@ -343,7 +352,7 @@ impl NWorld {
         }
         // server: update, flush -> clients
         let srv = &mut self.srv;
-        guard("server update", || srv.update(Duration::from_millis(DT)))?;
+        guard("server update", || srv.update(Duration::from_millis(dt)))?;
         for i in 0..n {
             let srv = &mut self.srv;
             let pk = guard("get_packets_to_send", || srv.get_packets_to_send(id_of(i)).unwrap_or_default())?;
@@ -487,6 +496,7 @@ impl World for NWorld {
                 v.push(Act::ServerDisconnect(i));
                 v.push(Act::Remove(i));
                 v.push(Act::Hostile(i));
+                v.push(Act::HostileSlice(i));
                 v.push(Act::TickLinkDown(i));
             }
             v.push(Act::Send(i, 1));
@@ -500,6 +510,7 @@ impl World for NWorld {
         v.push(Act::Broadcast(1));
         v.push(Act::Broadcast(0));
         v.push(Act::Tick);
+        v.push(Act::LongTick);
         v
     }
 
@@ -576,6 +587,24 @@ impl NWorld {
                     guard("client send_message", || c.send_message(*ch, b))?;
                 }
             }
+            Act::HostileSlice(i) => {
+                let pkt = renet::verif::Packet::UnreliableSlice {
+                    sequence: 1 << 40,
+                    channel_id: 0,
+                    slice: renet::verif::Slice { message_id: 77, slice_index: 0, num_slices: 10_000, payload: vec![7u8; 1200].into() },
+                };
+                let mut buf = [0u8; 1400];
+                let len = {
+                    let mut o = octets::OctetsMut::with_slice(&mut buf);
+                    pkt.to_bytes(&mut o).unwrap_or(0)
+                };
+                let srv = &mut self.srv;
+                guard("process_packet_from", || {
+                    let _ = srv.process_packet_from(&buf[..len], id_of(*i));
+                })?;
+                self.flags |= 4;
+            }
+            Act::LongTick => self.tick_dt(Fault::None, 3100)?,
             Act::Tick => self.tick(Fault::None)?,
             Act::TickLinkDown(i) => {
                 self.tick(Fault::Stall(*i))?;
